@@ -180,8 +180,9 @@ REGISTRY = {
     },
     'C02': {
         'theorems': ['PP.C02.lines_join', 'PP.C02.lines_nonempty', 'PP.C02.budget_positive', 'PP.C02.quote_is_quote',
-                     'PP.C02.lines_count', 'PP.PyStr.go_join', 'PP.PyStr.go_nonempty'],
-        'modules': ['PP.Model.PyStr', 'PP.Proofs.StrLines', 'PP.Props.C02'],
+                     'PP.C02.lines_count', 'PP.C02.escape_is_repr', 'PP.C02.unescape_escape', 'PP.C02.pieces_decode',
+                     'PP.PyStr.go_join', 'PP.PyStr.go_nonempty', 'PP.PyStr.parseHex_hexN'],
+        'modules': ['PP.Model.PyStr', 'PP.Spec.Unescape', 'PP.Proofs.StrLines', 'PP.Proofs.Escape', 'PP.Proofs.RoundTrip', 'PP.Props.C02'],
         'sections': [{'name': 'strings', 'run': strings_sec()}],
         'rule': 'string functions called directly (exhaustive over an adversarial alphabet) and the evaluator of pretty_str through the layout engine',
         'assumptions': ['str.isprintable, \\w and \\s classification of each character are inputs to the model (computed by CPython in the harness); theorems hold for all values of those bits',
